@@ -5,6 +5,7 @@ from analysis.facts import strip_generics
 from analysis.guards import dominating_conditions, conditional_defs, has_cond
 from analysis.pathinterp import enumerate_paths, path_value
 from . import routing as R
+from . import C05 as _C05, C06 as _C06
 
 EXPLANATION = (
     "Decided gates: (1) every Some(..) produced by ResourceStorage::get_redirect_resource is "
@@ -32,6 +33,10 @@ def check(run):
         run.guard("C13.4.redirect-vs-redirect-rule", cfg, lambda: rule_block(run, F, cfg))
         run.guard("C13.5.lookup", cfg, lambda: rule_lookup(run, F, cfg))
         run.guard("C13.6.priority-suffix", cfg, lambda: rule_priority(run, F, cfg))
+        b = run.borrow("C06", why="redirect rules added one by one must reach the same lists as in a batch build")
+        run.guard("C13.via.C06.4.batch-incremental", cfg, lambda: _C06.rule_routing(b, F, cfg))
+        b2 = run.borrow("C05", only=r"field:(modifier_option|mask)\b", why="redirect rules with different targets must not be fused")
+        run.guard("C13.via.C05.1.fusion-key", cfg, lambda: _C05.rule_key(b2, F, cfg))
 
 
 def rule_gate(run, F, cfg):
